@@ -206,3 +206,24 @@ for _k, _t in _ADD2.items():
     CHECKS[_k]["technique"] += _t
 NOTES += (" Judges (Trace_Conn, Trace_Server) take a constant Skip: a trace rejected only at clauses of other properties is judged again without them, so "
           "that the rest of it is examined for the property being decided.")
+
+_ADD3 = {
+ "C02": " + challenge responses carrying relatives of the issued token (t +- 2^31, t + 2^32, -t)",
+ "C03": " + a history that polls faster than the send-rate cap with keep-alive interval 0",
+ "C04": " + gap sweep (exactly G datagrams lost, then a replay from before the gap, G across the window and twice beyond)",
+ "C05": " + application callbacks that raise, several sends per frame across outages",
+ "C06": " + fragmented messages under bursts wider than the message window",
+ "C07": " + callables that compare equal handed to different sends",
+ "C10": " + forced raw token draws with every pair of top bits",
+ "C11": " + a hostile peer that holds a session key (honest key exchange, no challenge answer, CHALLENGE_RESP-typed DISCONNECT, refreshes)",
+ "C12": " + 20x asymmetric keep-alive configurations",
+ "C13": " + strings starting with U+FEFF",
+ "C14": " + enum-keyed containers whose members carry unhashable values",
+ "C15": " + strings with quotes, backslashes and comment look-alikes",
+ "C16": " + tables built after a request history and a registration batch refused at its end",
+ "C17": " + the root's own path in the other letter case as a segment",
+ "C18": " + an endpoint that answers and closes while the same read holds further frames",
+ "C19": " + fault injection into the key derivation",
+}
+for _k, _t in _ADD3.items():
+    CHECKS[_k]["technique"] += _t
